@@ -71,6 +71,46 @@ type viol struct {
 	Sig    string                 `json:"sig"`
 	What   string                 `json:"what"`
 	Detail map[string]interface{} `json:"detail,omitempty"`
+	Incon  string                 `json:"-"` // set instead of a verdict when "no answer" could not be decided
+	Wedged bool                   `json:"-"` // the bounded-progress rule confirmed a missing answer
+}
+
+// failure builds the violation for an honest request / handshake step that failed with err on c.  A watchdog
+// expiry alone decides nothing: the bounded-progress rule (50 round trips on other connections) must confirm it.
+func (w *world) failure(c *refctl.Conn, sigPrefix, what string, err error) *viol {
+	kind := "failed"
+	var se *refctl.StageError
+	stage := ""
+	terr := err
+	if errors.As(err, &se) {
+		stage = se.Stage
+		terr = se.Transport
+	}
+	v := &viol{What: what + ": " + err.Error()}
+	if terr != nil && c == nil {
+		kind = "connect-failed"
+	} else if terr != nil {
+		kind = classifyErr(c, terr)
+		if errors.Is(terr, refctl.ErrTimeout) || kind == "timeout" {
+			un, _, perr := w.a.Unanswered(c)
+			switch {
+			case perr != nil:
+				v.Incon = "bounded-progress probe failed: " + perr.Error()
+			case un:
+				kind, v.Wedged = "unanswered", true
+			default:
+				v.Incon = "an answer to an honest request arrived only after the read watchdog (" + what + ")"
+			}
+		}
+	}
+	v.Sig = sigPrefix
+	if stage != "" {
+		v.Sig += ":" + stage
+	}
+	if terr != nil {
+		v.Sig += ":" + kind
+	}
+	return v
 }
 
 type result struct {
@@ -327,6 +367,7 @@ type child struct {
 	hcLog  []string
 	parked []*pending
 	panics []app.HTTPPanic // panic lines of net/http not yet claimed by a case
+	wedged bool            // a missing answer was confirmed by the bounded-progress rule: the rest of the batch is not run
 }
 
 func (ch *child) writeJSON(f *os.File, v interface{}) {
@@ -363,11 +404,19 @@ func childMain(batchFile string) int {
 	}
 	ch.w = w
 	defer os.RemoveAll(w.dir)
+	skipped := 0
 	for _, d := range b.Cases {
+		if ch.wedged {
+			skipped++
+			continue
+		}
 		for len(ch.parked) > 24 {
 			ch.finishOldest()
 		}
 		ch.runCase(d)
+	}
+	if skipped > 0 {
+		ch.writeJSON(ch.resf, result{ID: -4, Counts: map[string]int{"cases_not_run_after_a_confirmed_missing_answer": skipped}})
 	}
 	for len(ch.parked) > 0 {
 		ch.finishOldest()
@@ -455,11 +504,15 @@ func (w *world) health(rnd *rand.Rand) (string, string, *viol) {
 		defer cs.c.Close()
 	}
 	if err != nil {
-		return addr, "failed", &viol{Sig: "wedged:new-connection:" + stageOf(err), What: "a correct pair-verify on a new connection failed: " + err.Error()}
+		var c *refctl.Conn
+		if cs != nil {
+			c = cs.c
+		}
+		return addr, "failed", w.failure(c, "wedged:new-connection", "a correct pair-verify on a new connection failed", err)
 	}
 	m, err := cs.c.Do("GET", "/accessories", "", nil)
 	if err != nil {
-		return addr, "failed", &viol{Sig: "wedged:new-connection:accessories:" + classifyErr(cs.c, err), What: "GET /accessories on a new verified connection was not answered: " + err.Error()}
+		return addr, "failed", w.failure(cs.c, "wedged:new-connection:accessories", "GET /accessories on a new verified connection was not answered", &refctl.StageError{Stage: "get", Why: "no answer", Transport: err})
 	}
 	if v := w.checkAccessories(m, "wedged:new-connection"); v != nil {
 		return addr, "failed", v
@@ -494,13 +547,14 @@ func (w *world) continueVerify(cs *connState, rnd *rand.Rand) (rejected int, v *
 		err = c.FinishVerify(ver)
 	}
 	if err != nil {
-		return rejected, &viol{Sig: "wedged:pair-verify:same-connection:" + stageOf(err),
-			What: fmt.Sprintf("after the hostile message a correct pair-verify on the same connection failed (%d rejected start(s) before): %v", rejected, err)}
+		return rejected, w.failure(c, "wedged:pair-verify:same-connection",
+			fmt.Sprintf("after the hostile message a correct pair-verify on the same connection failed (%d rejected start(s) before)", rejected), err)
 	}
 	cs.secure = true
 	m, err := c.Do("GET", "/accessories", "", nil)
 	if err != nil {
-		return rejected, &viol{Sig: "wedged:pair-verify:same-connection:accessories:" + classifyErr(c, err), What: "encrypted GET /accessories after the handshake on the same connection: " + err.Error()}
+		return rejected, w.failure(c, "wedged:pair-verify:same-connection:accessories", "encrypted GET /accessories after the handshake on the same connection",
+			&refctl.StageError{Stage: "get", Why: "no answer", Transport: err})
 	}
 	return rejected, w.checkAccessories(m, "wedged:pair-verify:same-connection")
 }
@@ -523,8 +577,8 @@ func (w *world) startSetupContinuation(cs *connState, rnd *rand.Rand) (s *refctl
 		}
 	}
 	if err != nil {
-		return s, rejected, &viol{Sig: "wedged:pair-setup:same-connection:" + stageOf(err),
-			What: fmt.Sprintf("after the hostile message a correct pair-setup with the right code on the same connection failed (%d rejected start(s) before): %v", rejected, err)}
+		return s, rejected, w.failure(c, "wedged:pair-setup:same-connection",
+			fmt.Sprintf("after the hostile message a correct pair-setup with the right code on the same connection failed (%d rejected start(s) before)", rejected), err)
 	}
 	return s, rejected, nil
 }
@@ -537,7 +591,8 @@ func (w *world) finishSetupContinuation(cs *connState, s *refctl.Setup, rejected
 	}
 	a := readAnswer(cs.c)
 	if a.kind != "answered" {
-		return fail("setup.M6:no-answer", "no well-formed answer to M5 (%s: %v)", a.kind, a.err)
+		return w.failure(cs.c, "wedged:pair-setup:same-connection", fmt.Sprintf("after the hostile message a correct pair-setup on the same connection got no well-formed answer to M5 (%d rejected start(s) before)", rejected),
+			&refctl.StageError{Stage: "setup.M6", Why: "no answer", Transport: a.err})
 	}
 	m := a.m
 	if m.Status != 200 {
@@ -599,6 +654,25 @@ func (p *pending) addViol(sig, what string, detail map[string]interface{}) {
 	p.res.Viols = append(p.res.Viols, viol{Sig: sig, What: what, Detail: detail})
 }
 
+// addV records a violation built by failure / checkAccessories (or its inconclusive replacement).
+func (ch *child) addV(p *pending, v *viol, prefix string) {
+	if v == nil {
+		return
+	}
+	if v.Incon != "" {
+		p.res.Incon = v.Incon
+		return
+	}
+	if v.Wedged {
+		ch.wedged = true
+	}
+	var wit map[string]interface{}
+	if p.rq != nil {
+		wit = ch.witness(p)
+	}
+	p.addViol(v.Sig, prefix+v.What, wit)
+}
+
 func (ch *child) witness(p *pending) map[string]interface{} {
 	msg := p.rq.bytes()
 	return map[string]interface{}{"case": p.d, "state": stateNames[p.d.State], "variant": p.rq.Variant, "request_len": len(msg), "request_head": head(msg, 400),
@@ -635,7 +709,11 @@ func (ch *child) runCase(d caseDesc) {
 	if err != nil {
 		// the honest prefix on a NEW connection failed: the accessory does not serve correct peers any more
 		ch.writeJSON(ch.logf, map[string]interface{}{"id": d.ID, "desc": d, "phase": "honest-prefix-failed", "error": err.Error()})
-		p.addViol("wedged:new-connection:"+stageOf(err), fmt.Sprintf("the honest prefix (%s) on a new connection failed: %v", stateNames[d.State], err), nil)
+		var c0 *refctl.Conn
+		if cs != nil {
+			c0 = cs.c
+		}
+		ch.addV(p, w.failure(c0, "wedged:new-connection", fmt.Sprintf("the honest prefix (%s) on a new connection failed", stateNames[d.State]), err), "")
 		p.res.Outcome = "not-sent"
 		ch.claimPanics(p, "closed")
 		w.restore()
@@ -708,6 +786,7 @@ func (ch *child) judge(p *pending) bool {
 			a.kind = "unknown"
 		case un:
 			a.kind = "unanswered"
+			ch.wedged = true
 		case late != nil:
 			a = answer{kind: "answered", m: late}
 		default:
@@ -781,7 +860,7 @@ func (ch *child) judge(p *pending) bool {
 			s, rej, v := w.startSetupContinuation(cs, p.rnd)
 			if v != nil {
 				res.SameConn = "failed"
-				p.addViol(v.Sig, v.What, ch.witness(p))
+				ch.addV(p, v, "")
 				ch.conclude(p, false)
 				return false
 			}
@@ -808,7 +887,7 @@ func (ch *child) finishOldest() {
 	}()
 	if v := ch.w.finishSetupContinuation(p.cs, p.setup, p.rejects); v != nil {
 		p.res.SameConn = "failed"
-		p.addViol(v.Sig, v.What, ch.witness(p))
+		ch.addV(p, v, "")
 		ch.conclude(p, false)
 		return
 	}
@@ -829,10 +908,11 @@ func (ch *child) conclude(p *pending, usable bool) {
 			m, err := c.Do("GET", "/accessories", "", nil)
 			if err != nil {
 				res.SameConn = "failed"
-				p.addViol("wedged:verified:same-connection:"+classifyErr(c, err), "after the hostile message GET /accessories on the same verified connection was not answered: "+err.Error(), ch.witness(p))
+				ch.addV(p, w.failure(c, "wedged:verified:same-connection", "after the hostile message GET /accessories on the same verified connection was not answered",
+					&refctl.StageError{Stage: "get", Why: "no answer", Transport: err}), "")
 			} else if v := w.checkAccessories(m, "wedged:verified:same-connection"); v != nil {
 				res.SameConn = "failed"
-				p.addViol(v.Sig, "after the hostile message on the same verified connection: "+v.What, ch.witness(p))
+				ch.addV(p, v, "after the hostile message on the same verified connection: ")
 			} else {
 				res.SameConn = "ok"
 				res.Counts["same_connection_verified_get_ok"]++
@@ -841,7 +921,7 @@ func (ch *child) conclude(p *pending, usable bool) {
 			rej, v := w.continueVerify(cs, p.rnd)
 			if v != nil {
 				res.SameConn = "failed"
-				p.addViol(v.Sig, v.What, ch.witness(p))
+				ch.addV(p, v, "")
 			} else {
 				res.SameConn = "ok"
 				res.Counts["same_connection_pair_verify_ok"]++
@@ -876,9 +956,7 @@ func (ch *child) conclude(p *pending, usable bool) {
 	if len(res.Viols) > 0 || ch.n%3 == 0 || a.kind != "answered" {
 		addr, st, v := w.health(p.rnd)
 		res.NewConn = st
-		if v != nil {
-			p.addViol(v.Sig, "after the hostile message: "+v.What, ch.witness(p))
-		}
+		ch.addV(p, v, "after the hostile message: ")
 		if addr != "" {
 			p.addrs[addr] = "health"
 			ch.claimPanics(p, "closed")
